@@ -57,6 +57,26 @@ def hist_cfg(name, mode, maxops, maxreq, emit, dev="{}", subkeys='{"all"}', invs
                                            invs=("EmitInv " if emit else "") + invs))
 
 
+LIVE_CFG = """SPECIFICATION %s
+CONSTANTS
+  UT = {"ta"}
+  Shapes <- MCShapes
+  SubKeys = {"all"}
+  Clients = {"c1", "c2"}
+  QClients = {"q1"}
+  MaxReq = %d
+  MaxWal = 0
+  MaxWalFiles = 100
+  CombineMode = "pairs"
+  FsSteps = FALSE
+  Dev = {}
+  Avoid <- MCAvoid
+INVARIANTS ContentOK NoFailure WalAccounting
+PROPERTIES BlockedIngestProceeds EveryIngestAcked FlushTerminates
+CHECK_DEADLOCK FALSE
+"""
+
+
 def model_jobs(prop, tier):
     jobs = []
     if tier == "quick":
@@ -82,6 +102,21 @@ def model_jobs(prop, tier):
         j["rejected_by"] = r["violated"]
         jobs.append(j)
         log("model mutant %s rejected by %s" % (dev, r["violated"]))
+    if prop == "C18":
+        # liveness of the log-size hand-shake: held-back ingestion proceeds once the flush thread (which triggers on its
+        # own) has run; without fairness of the flush thread the property must fail (vacuity guard)
+        for spec, expect_fail in (("LiveSpec", False), ("LiveSpecNoFlushFairness", True)):
+            cfg = write_cfg("live_%s" % spec, LIVE_CFG % (spec, 3 if tier == "quick" else 4))
+            r = run_tlc("MC_live", cfg, workers=4, timeout=1800)
+            failed = (r["violated"] or "").startswith("temporal")
+            if r["violated"] and not failed:
+                raise MachineryError("MC_live: %s violated" % r["violated"])
+            if failed != expect_fail:
+                raise MachineryError("MC_live %s: liveness %s" % (spec, "violated: " + r["violated"] if failed else "holds without fairness of the flush thread (vacuous)"))
+            j = tlc_job_summary(r)
+            j["liveness"] = "BlockedIngestProceeds EveryIngestAcked FlushTerminates " + ("violated without flush fairness (guard)" if expect_fail else "hold")
+            jobs.append(j)
+            log("MC_live %s: %s" % (spec, j["liveness"]))
     if prop == "C08":
         import conccheck
         cfg = conccheck.conc_cfg("conc_mut_cursor", "never", 2, 1, "MCAvoidKnown", dev='{"CursorIsNextWal"}')
